@@ -78,6 +78,13 @@ add("C17", "x_utils", MC, "all ordered pairs of enumerated documents through pat
 add("C18", "x_utils", MC, "all ordered pairs of enumerated documents through merge-patch application and generation against an RFC 7396 reference",
     "All ordered (target, patch) and (from, to) pairs over the 1918 documents plus 500+ nested objects whose keys differ only by case / are non-ASCII and carry null members: MergePatchCaseSensitive == reference merge; generated merge patch applied by library and reference yields 'to' (to without null members); inputs unchanged in value and healthy.", UT_NOTE, "DESIGN.md §3 C18")
 
+add("C20", "x_sched", MC, "preemption-bounded stateless exploration of thread interleavings (cooperative scheduler over real pthreads, scheduling points at every potentially conflicting access to static storage observed through compiler instrumentation) + free-running ThreadSanitizer pass",
+    "All 55 unordered pairs of 10 thread programs (parse/print, failing parse, construction+PrintBuffered, numbers, PrintPreallocated, duplicate+compare, edits, minify, patch generate+apply, merge patch+sort) and 8 triples, each thread on private data that differs per thread: "
+    "all schedules with <= 3 preemptions (thorough 5; triples 2/3) are executed; per schedule each thread's observation must equal its solo observation; any static byte written by one thread and touched by another (other than the documented error position) is a violation. "
+    "The same bodies run truly concurrently under the real ThreadSanitizer runtime as an additional detector.",
+    "Trusted: clang's -fsanitize=thread instrumentation reports every load/store of library code; wrapped libc calls (memcpy, memset, strcpy, strcat, strlen, strcmp, strncmp, sprintf) cover static accesses made inside libc; other libc functions are assumed thread-safe when the locale is not changed; sequential consistency at scheduling points (no weak-memory effects); "
+    "accesses to thread-private memory commute, so they are not scheduling points (checked: a thread touching static storage it does not touch when alone is reported).", "DESIGN.md §3 C20")
+
 NA = [dict(property_id=p, reason="check not built yet in this revision (planned: see DESIGN.md §3); nothing is claimed for it") for p in
       ["C04","C05","C06","C07","C08","C09","C11","C12","C13","C14","C15","C16","C17","C18","C19","C20"] if p not in C]
 ENGINES = [
